@@ -4,8 +4,10 @@ import (
 	"crypto/sha256"
 	"encoding/hex"
 	"fmt"
+	"os"
 	"sort"
 	"strings"
+	"sync/atomic"
 )
 
 // Violation is an oracle failure.
@@ -155,6 +157,46 @@ func Exec(property string, fn Scenario, t *Tape, env *Env) (res *Result) {
 }
 
 type harnessError struct{ msg string }
+
+// HarnessRetries counts process-level runs that were re-executed from their seed after trouble in
+// the environment (a watchdog timeout on an overloaded machine, a stray signal). A run is a pure
+// function of its seed, so re-executing it is the same run; trouble that repeats still exits 2.
+var HarnessRetries atomic.Int64
+
+// ExecRetry is Exec for process-level parts: environment trouble is retried twice in a fresh
+// scratch directory before it aborts the check.
+func ExecRetry(property string, fn Scenario, seed uint64, env *Env, fresh func() string) (res *Result) {
+	for attempt := 0; ; attempt++ {
+		e := *env
+		e.Scratch = fresh()
+		var herr *harnessError
+		func() {
+			defer func() {
+				if p := recover(); p != nil {
+					if h, ok := p.(harnessError); ok && attempt < 2 {
+						herr = &h
+						return
+					}
+					panic(p)
+				}
+			}()
+			res = Exec(property, fn, NewTape(seed), &e)
+		}()
+		os.RemoveAll(e.Scratch)
+		if herr == nil {
+			return res
+		}
+		HarnessRetries.Add(1)
+		fmt.Fprintf(os.Stderr, "harness-retry run=%d attempt=%d: %s\n", env.RunIndex, attempt+1, firstN(herr.msg, 300))
+	}
+}
+
+func firstN(s string, n int) string {
+	if len(s) > n {
+		return s[:n]
+	}
+	return s
+}
 
 // Harnessf aborts the whole check with exit status 2: trouble in the machinery, never a violation.
 func Harnessf(format string, a ...any) {
